@@ -303,6 +303,13 @@ def compare(interp, op, a, b):
     from .interp import Undecided
 
     if isinstance(op, (ast.Is, ast.IsNot)):
+        h = interp.hooks.get("is")  # identity tests on abstract values (e.g. `type(<abstract op>) is ops.CNOT` -> class-tag term)
+        if h and (isinstance(a, Opaque) or isinstance(b, Opaque)):
+            r = h(interp, a, b)
+            if r is not NotImplemented:
+                if isinstance(op, ast.Is):
+                    return r
+                return z3.Not(r) if is_sym(r) else (not r)
         r = (a is b) if not (is_sym(a) or is_sym(b)) else None
         if r is None:
             if a is None or b is None:
@@ -926,6 +933,30 @@ def value_attr(interp, obj, attr):
                 return Builtin("flatten", lambda interp_: obj.snapshot())
         if attr == "trace":
             raise Undecided("ndarray.trace")
+        if attr == "any" and obj.ndim == 2:
+            def any_rows(interp_, axis=None):
+                """[A] M.any(axis=1) for a matrix with a symbolic number of columns: a 0/1 vector A with, for every row i,
+                A(i) = 1 -> M[i, W(i)] != 0 for a witness column W(i) in range;  A(i) = 0 -> forall j in range: M[i, j] == 0"""
+                if concrete_int(axis) != 1:
+                    raise Undecided("ndarray.any with an axis other than 1")
+                used("ndarray.any(axis=1) (2-D): per-row fresh Bool with its two-sided characterisation (witness function / quantified)")
+                path = interp_.path
+                c = path.counter.get("anyrows", 0)
+                path.counter["anyrows"] = c + 1
+                ANY = z3.Function(f"ANYROW{c}", z3.IntSort(), z3.BoolSort())
+                W = z3.Function(f"ANYCOL{c}", z3.IntSort(), z3.IntSort())
+                rd_ = obj.reader()
+                rows, cols = to_z3(obj.shape[0]), to_z3(obj.shape[1])
+                i_, j_ = z3.Int(f"anyr{c}"), z3.Int(f"anyc{c}")
+                path.assume(z3.ForAll([i_], z3.Implies(z3.And(i_ >= 0, i_ < rows, ANY(i_)),
+                                                      z3.And(W(i_) >= 0, W(i_) < cols, as_int_term(rd_(i_, W(i_))) != 0)), patterns=[ANY(i_)]))
+                path.assume(z3.ForAll([i_, j_], z3.Implies(z3.And(i_ >= 0, i_ < rows, z3.Not(ANY(i_)), j_ >= 0, j_ < cols),
+                                                          as_int_term(rd_(i_, j_)) == 0)))
+                out = new_array((obj.shape[0],), lambda k_: z3.If(ANY(to_z3(k_)), z3.IntVal(1), z3.IntVal(0)), "any_rows")
+                out.store.is_bool = True
+                path.ghost.setdefault("anyrows", {})[out.store.id] = dict(ANY=ANY, W=W, rd=rd_, rows=rows, cols=cols)
+                return out
+            return Builtin("any", any_rows)
         if attr == "reshape":
             return Builtin("reshape", lambda interp_, *shape, **k: nd_reshape(interp_, obj, shape, k))
         raise Undecided(f"ndarray.{attr}")
@@ -1232,6 +1263,11 @@ def python_builtin(interp, name):
             return Opaque("type", "str")
         if isinstance(obj, list):
             return Opaque("type", "list")
+        h = i.hooks.get("type")  # abstract objects of a contract module (e.g. an operation stored in an abstract circuit)
+        if h:
+            r = h(i, obj)
+            if r is not NotImplemented:
+                return r
         raise Undecided("type() of " + type(obj).__name__)
 
     def b_list(i, x=()):
@@ -1524,6 +1560,17 @@ def external_attr(interp, mod: ModRef, attr):
                 i.path.assume(z3.And(r >= to_z3(lo), r < to_z3(hi)))
                 return r
             return Builtin("np.random.randint", randint)
+        if attr == "choice":
+            def choice(i, a, size=None, replace=True, p=None):
+                if size is not None or not (isinstance(a, int) or (is_sym(a) and z3.is_int(a))):
+                    raise Undecided("np.random.choice other than choice(n, p=...) with an integer n")
+                used("np.random.choice(n, p=..) = havoc integer in [0,n) (ValueError for n <= 0)")
+                if not i.path.decide(to_z3(a) > 0):
+                    raise interp_raise(i, "ValueError", "a must be greater than 0")
+                r = i.path.fresh("rand")
+                i.path.assume(z3.And(r >= 0, r < to_z3(a)))
+                return r
+            return Builtin("np.random.choice", choice)
         raise Undecided(f"numpy.random.{attr}")
     if name == "copy":
         if attr == "deepcopy":
